@@ -171,6 +171,10 @@ class FakeHidDevice:
                 if len(d) == 3:
                     d.append(0x20)    # keep it well-formed for ops that carry a length
                 r = (bytes(d), r[1])
+            if isinstance(kind, tuple) and kind[0] == "alter" and r is not None:
+                # the device's answer is altered in transit by kind[1](bytes) -> bytes
+                link.stats.fault("alter")
+                r = (bytes(kind[1](bytes(r[0]))), r[1])
             if isinstance(kind, tuple) and kind[0] == "swdata" and r is not None:
                 # status words ledgerblue does not treat as errors (9000/61xx/6Cxx)
                 link.stats.fault("swdata")
